@@ -363,6 +363,34 @@ def _noop_test():
     pass
 
 
+_DET_PROVIDER = None
+
+
+def _det_provider():
+    """HypothesisProvider mixes constants harvested from the *currently imported modules* into its draws, which
+    would make a case evaluate differently in a worker and in a replay process: use only hypothesis' fixed global
+    constant pool (own cache: the shared one may already hold local constants)."""
+    global _DET_PROVIDER
+    if _DET_PROVIDER is None:
+        from hypothesis.internal.conjecture import providers as hp
+
+        class DetProvider(hp.HypothesisProvider):
+            _c13_cache = {}
+
+            def _maybe_draw_constant(self, choice_type, constraints, *, p=0.05):
+                if self._random.random() > p:
+                    return None
+                key = (choice_type, hp.choice_constraints_key(choice_type, constraints))
+                pool = self._c13_cache.get(key)
+                if pool is None:
+                    pool = self._c13_cache[key] = tuple(
+                        c for c in hp.GLOBAL_CONSTANTS.set_for_type(choice_type) if hp.choice_permitted(c, constraints))
+                return self._random.choice(pool) if pool else None
+
+        _DET_PROVIDER = DetProvider
+    return _DET_PROVIDER
+
+
 def run_draws(make_strategy, k, seed, limit=ATTEMPT_LIMIT):
     """k draws from a strategy, driven directly through a seeded ConjectureData (no @given engine: an
     unsatisfiable chain costs `limit` attempts instead of Hypothesis' ~460, and the draws depend on nothing
@@ -384,7 +412,7 @@ def run_draws(make_strategy, k, seed, limit=ATTEMPT_LIMIT):
     rnd = Random(seed)
     while len(out["draws"]) < k and out["attempts"] < limit:
         out["attempts"] += 1
-        data = ConjectureData(random=rnd)
+        data = ConjectureData(random=rnd, provider=_det_provider())
         try:
             with BuildContext(data, wrapped_test=_noop_test):
                 out["draws"].append(data.draw(strat))
@@ -550,9 +578,9 @@ def evaluate(case, fresh=False):
 
     seen = set()
 
-    def add(kind, detail):
-        if kind not in seen:
-            seen.add(kind)
+    def add(kind, detail, sub=None):
+        if (kind, sub) not in seen:
+            seen.add((kind, sub))
             ev.add(kind, detail)
 
     for d in res["draws"]:
@@ -571,9 +599,9 @@ def evaluate(case, fresh=False):
             for f in fails:
                 k = "draw-rejected:" + str(f["reason"]) + (":" + str(f["check"]) if f["reason"] in (
                     "DATAFRAME_CHECK", "CHECK_ERROR") else "")
-                by_kind.setdefault(k, []).append(f)
-            for k, fs in sorted(by_kind.items()):
-                add(k, {"failed": fs, "draw": _snap(d), "model": status})
+                by_kind.setdefault((k, str(f["schema"]) + ":" + str(f["field"])), []).append(f)
+            for (k, sub), fs in sorted(by_kind.items()):
+                add(k, {"failed": fs, "draw": _snap(d), "model": status}, sub)
         except Exception as e:  # noqa: BLE001
             add("draw-validate-internal:" + type(e).__name__, {"where": _where(e), "msg": str(e)[:200], "draw": _snap(d)})
         else:
@@ -798,7 +826,13 @@ def _k_null_unique(family, case, disc):
     def fn(role, f, segs, fl):
         return f.get("nullable") and (f.get("unique") or f.get("name") in joint) and fl.get("null_only") is True
 
-    return _all_fails(case, disc, "draw-rejected:SERIES_CONTAINS_DUPLICATES", fn)
+    if _all_fails(case, disc, "draw-rejected:SERIES_CONTAINS_DUPLICATES", fn):
+        return True
+    # joint uniqueness over columns of which at least one is nullable: duplicated all-null key tuples
+    fails = _fails(disc)
+    return bool(disc.kind == "draw-rejected:DUPLICATES" and joint and fails
+                and all(f.get("null_only") is True and f.get("schema") == "DataFrameSchema" for f in fails)
+                and any(f.get("nullable") for f in case.get("columns", []) if f["name"] in joint))
 
 
 @known.finding("C13/null-mask-on-dtype-without-nulls")
@@ -809,24 +843,74 @@ def _k_null_dtype(family, case, disc):
     return _all_fails(case, disc, "draw-rejected:WRONG_DATATYPE", fn)
 
 
+def _numeric_cells(snap, name=None):
+    """numeric cell values of column `name` (all columns when None) of a DataFrame/Series snapshot, or None"""
+    if not isinstance(snap, dict) or "cells" not in snap:
+        return None
+    cols = snap["cells"]
+    if snap.get("kind") == "pd.DataFrame":
+        names = snap.get("columns", [])
+        cols = [c for n, c in zip(names, cols) if name is None or n == repr(name)]
+    else:
+        cols = [cols]
+    out = []
+    for col in cols:
+        for cell in col:
+            if cell in ("nan", "None", "<NA>", "NaT"):
+                continue
+            try:
+                out.append(float(str(cell).split(":", 1)[1]))
+            except (ValueError, IndexError):
+                return None
+    return out
+
+
+def _only_excluded_bounds_violate(values, tag, c):
+    lo, hi = sp.conc(tag, c["lo"]), sp.conc(tag, c["hi"])
+    imin, imax = c.get("imin", True), c.get("imax", True)
+    excluded = ([lo] if not imin else []) + ([hi] if not imax else [])
+    try:
+        import pandas as pd
+
+        if sp.cls_of(tag) == "dt":
+            values = [pd.Timestamp(v) for v in values]
+        elif sp.cls_of(tag) == "td":
+            values = [pd.Timedelta(v) for v in values]
+        bad = [v for v in values if not ((lo <= v if imin else lo < v) and (v <= hi if imax else v < hi))]
+    except (TypeError, ValueError):
+        return False
+    return bool(excluded) and bool(bad) and all(any(v == b for b in excluded) for v in bad)
+
+
 @known.finding("C13/in-range-exclusive-bound-ignored-for-non-float")
 def _k_in_range(family, case, disc):
+    if disc.kind != "draw-rejected:DATAFRAME_CHECK:in_range":
+        return False
+    snap = disc.detail.get("draw") if isinstance(disc.detail, dict) else None
+
     def fn(role, f, segs, fl):
         if sp.cls_of(f["dtype"]) == "float":
             return False
         for seg in segs:
             if seg and seg[0][1]["c"] == "in_range":
                 tag, c = seg[0]
-                bounds = []
-                if not c.get("imin", True):
-                    bounds.append(sp.conc(tag, c["lo"]))
-                if not c.get("imax", True):
-                    bounds.append(sp.conc(tag, c["hi"]))
-                if bounds and fl["cases"] and all(any(_same(v, b) for b in bounds) for v in fl["cases"]):
+                values = fl["cases"] or _numeric_cells(snap, f.get("name") if role == "column" else None)
+                if values and _only_excluded_bounds_violate(values, tag, c):
                     return True
         return False
 
-    return _all_fails(case, disc, "draw-rejected:DATAFRAME_CHECK:in_range", fn)
+    if _all_fails(case, disc, "draw-rejected:DATAFRAME_CHECK:in_range", fn):
+        return True
+    # the dataframe-level in_range itself (reported on the DataFrameSchema, no per-cell failure cases):
+    # every cell that violates it must sit exactly on an excluded bound, and a non-float column must exist
+    fails = _fails(disc)
+    fc = case.get("checks") or []
+    if (not fc or fc[0]["c"] != "in_range" or not fails
+            or not all(f.get("schema") == "DataFrameSchema" for f in fails)):
+        return False
+    values = _numeric_cells(snap)
+    nonfloat = any(sp.cls_of(f["dtype"]) != "float" for f in case["columns"])
+    return bool(values) and nonfloat and _only_excluded_bounds_violate(values, "int64", fc[0])
 
 
 @known.finding("C13/index-vectorised-check-without-strategy-not-applied")
@@ -899,7 +983,7 @@ FAMILIES = [
                                                 "nullable", "unique", "arg-none", "literal-metachar",
                                                 "check=ew_gt", "check=vec_ge", "check=strat_le", "check=ext_ge",
                                                 "model=sat", "model=unsat", "clean", "free"]),
-    Family("frame", evaluate, strategy=st_frame_case, n_quick=70, n_thorough=800, shards_quick=6,
+    Family("frame", evaluate, strategy=st_frame_case, n_quick=60, n_thorough=800, shards_quick=6,
            shards_thorough=16, required_labels=["kind=dataframe", "kind=multiindex", "regex-column", "index=multi",
                                                 "index=single", "joint-unique", "frame-checks",
                                                 "frame+column-checks", "model=sat"]),
